@@ -4,6 +4,7 @@ from numgen import *   # noqa
 from numspec import spec_round, judge
 
 PROP = 'C01'
+EXTRA_PROPS = ['C01v']   # value-level theorems (Fpy/Props/C01v.lean), audited together with C01
 
 def classify_finding(d, op, got, why):
     """map a Spec violation to a listed known finding id, if it has exactly that shape"""
